@@ -235,6 +235,21 @@ def GoOpOk' (c : Cfg) (hist look : ByteArray) (s : St) : GoOp → Prop
 def MatcherOk' (c : Cfg) (M : Matcher σ) : Prop :=
   ∀ (m : σ) (hist look : ByteArray) (s : St), 1 ≤ look.size → GoOpOk' c hist look s (M.next m hist look s).1
 
+/-- copy of `MatcherInv` of Proofs/Writer2.lean (over `GoOpOk'`) -/
+structure MatcherInv' (c : Cfg) (M : Matcher σ) (I : σ → ByteArray → ByteArray → Prop) : Prop where
+  ok : ∀ (m : σ) (hist look : ByteArray) (s : St), I m hist look → 1 ≤ look.size →
+        look.size + min hist.size c.dictCap ≤ c.dictCap + c.bufSize →
+        GoOpOk' c hist look s (M.next m hist look s).1
+  consume : ∀ (m : σ) (hist look : ByteArray) (s : St), I m hist look → 1 ≤ look.size →
+        look.size + min hist.size c.dictCap ≤ c.dictCap + c.bufSize →
+        I (M.next m hist look s).2 (hist ++ look.extract 0 (M.next m hist look s).1.len)
+          (look.extract (M.next m hist look s).1.len look.size)
+  drop : ∀ (m : σ) (hist look : ByteArray) (s : St), I m hist look → 1 ≤ look.size →
+        look.size + min hist.size c.dictCap ≤ c.dictCap + c.bufSize →
+        I (M.next m hist look s).2 hist look
+  grow : ∀ (m : σ) (hist look x : ByteArray), I m hist look →
+        (look ++ x).size + min hist.size c.dictCap ≤ c.dictCap + c.bufSize → I m hist (look ++ x)
+
 theorem classify_mtch_cases (s : St) (dist n : Nat) (h2 : 2 ≤ n ∨ (n = 1 ∧ dist - 1 = s.r0)) :
     (s.apply (classify s (.mtch dist n))).r0 = dist - 1 ∧
     ((classify s (.mtch dist n) = .shortRep ∧ n = 1) ∨
